@@ -93,7 +93,47 @@ func Simulate(g *gram.Grammar, c *gram.CFG, tbl *lalr.Table, opt gram.HarnessOpt
 			methodOf[[2]int{m.Rule, pi}] = m.ID
 		}
 	}
-	return SimulateWith(g, c, tbl, methodOf, opt.Bounds, toks)
+	exp, err := SimulateWith(g, c, tbl, methodOf, opt.Bounds, toks)
+	if err != nil || opt.AnyRules == 0 || opt.NilSeed == 0 {
+		return exp, err
+	}
+	// Methods that record their call and return an untyped nil: wherever the
+	// node they would have returned is passed on (to a parent's action, inside
+	// a list, to _onBounds), the prescribed value is nil. Calls and bounds are
+	// prescribed as for any other action.
+	ruleOf := map[int]int{}
+	for _, m := range g.Methods(opt) {
+		ruleOf[m.ID] = m.Rule
+	}
+	nilNode := map[int]bool{}
+	for _, e := range exp.Events {
+		if e.K == "a" && opt.ReturnsNil(ruleOf[e.M], e.M) {
+			nilNode[e.Ret] = true
+		}
+	}
+	var fix func(a *hc.Arg)
+	fix = func(a *hc.Arg) {
+		if a.K == "n" && nilNode[a.V] {
+			*a = hc.Arg{K: "z"}
+			return
+		}
+		for i := range a.L {
+			fix(&a.L[i])
+		}
+	}
+	for i := range exp.Events {
+		e := &exp.Events[i]
+		for k := range e.Args {
+			fix(&e.Args[k])
+		}
+		if e.R != nil {
+			r := *e.R
+			r.L = append([]hc.Arg(nil), r.L...)
+			fix(&r)
+			e.R = &r
+		}
+	}
+	return exp, nil
 }
 
 // SimulateWith is Simulate with an explicit (rule, production) -> method id
